@@ -152,8 +152,11 @@ class SaveCrashScenario(PersistScenario):
             n_enc, n_encrypt = ctl.enc_n, ctl.encrypt_n
             key_opens = [e for e in dry_journal if e[2] == "open" and e[4] == "rb" and e[3] != dest]
             if err is not None:
-                rec.fail("C19/success", "C19/fault-free-save-raises/%s/%s" % (fmt, type(err).__name__),
-                         "a fault-free save of a valid representable state raised %r" % (err,))
+                # C19 does not promise that saving succeeds (C02 does): without a successful dry run there is no
+                # serialisation to inject faults into
+                rec.probe("fault-free-save-raised:" + type(err).__name__)
+                rec.log("crash_save", fname, fmt, "dry-run-raised")
+                return
             good = w.peek(dest)
             rec.check()
             if good != ctl.fmt_bytes:
@@ -204,9 +207,16 @@ class SaveCrashScenario(PersistScenario):
         elif what == "encrypt":
             ctl.encrypt_fail = k
         elif what == "key-open":
-            w.armed.append({"seam": "open:r", "nth": k, "errno": rng.choice(["EACCES", "EIO", "EMFILE"]), "kind": "open-err",
-                            "path": None})
-            # count only key-file reads: the destination is never opened for reading by save
+            # the k-th key-file read of the dry run: the same file, the same occurrence; the file must exist, so that the
+            # injected error is the only thing that differs from the dry run
+            kpath = key_opens[k - 1][3]
+            if w.peek(kpath) is None:
+                rec.probe("fault-not-reached:key-open-fault")
+                seams.install(base)
+                return
+            nth = sum(1 for e in key_opens[:k] if e[3] == kpath)
+            w.armed.append({"seam": "open:r", "nth": nth, "errno": rng.choice(["EACCES", "EIO", "EMFILE"]), "kind": "open-err",
+                            "path": kpath})
         elif what == "formatter":
             ctl.fmt_fail = True
         elif what == "write-phase":
@@ -273,8 +283,7 @@ class SaveCrashScenario(PersistScenario):
                          % (fmt, what, k, "raised " + type(err).__name__ if err else "returned normally",
                             None if after is None else len(after), None if P is None else len(P)))
             if opened:
-                rec.fail("C19/untouched", "C19/destination-opened-for-writing/%s" % label,
-                         "save(%s) with a failing step (%s #%d) touched the destination: %r" % (fmt, what, k, opened[:2]))
+                rec.probe("destination-opened-during-failing-save")     # its bytes are what the statement protects
             if err is None:
                 rec.probe("faulted-save-returned-normally:" + label)
         else:
